@@ -508,6 +508,38 @@ theorem validMatches_decompose (s : List Char) (ms : List (Nat × Nat)) : ∀ (A
       have e2 : b = blen A + blen seg + blen tag := by rw [← hA₂, htag, hseg, blen_append, blen_append]
       simp only [offsets]
       rw [hms, e1, e2, htag, hseg]
-      simp [blen_append]
+      simp [blen_append, Nat.add_assoc]
+
+/-! ## length facts -/
+
+theorem isElongated_isLower (c : Char) (h : isElongated c) : isLower c := by
+  rcases h with rfl | rfl | rfl | rfl <;> decide
+
+theorem length_imgChar (T : Tables) (flipped elongate : Bool) (c : Char) :
+    (imgChar T flipped elongate c).length = if elongate = true ∧ isElongated c then 2 else 1 := by
+  unfold imgChar
+  by_cases hl : isLower c
+  · rw [if_pos hl]
+    by_cases he : elongate = true ∧ isElongated c
+    · simp only [if_pos he]; rfl
+    · simp only [if_neg he]; rfl
+  · have he : ¬ (elongate = true ∧ isElongated c) := fun h => hl (isElongated_isLower c h.2)
+    rw [if_neg hl, if_neg he]
+    split <;> rfl
+
+/-- the output has one character per input character, plus one for every doubled letter -/
+theorem length_image (T : Tables) (flipped elongate : Bool) (s : List Char) :
+    (image T flipped elongate s).length =
+      s.length + (if elongate = true then s.countP (fun c => decide (isElongated c)) else 0) := by
+  induction s with
+  | nil => simp [image]
+  | cons c cs ih =>
+    simp only [image, List.flatMap_cons, List.length_append, List.length_cons] at ih ⊢
+    rw [ih, length_imgChar, List.countP_cons]
+    cases elongate
+    · simp; omega
+    · by_cases h : isElongated c
+      · simp [h]; omega
+      · simp [h]; omega
 
 end FluentProofs.Pseudo
